@@ -460,7 +460,15 @@ impl BasicTypeColumn {
             EncodingType::Str => {
                 BasicTypeColumn::String(data.cast_ref_str().iter().map(|s| s.to_string()).collect())
             }
-            EncodingType::I64 => BasicTypeColumn::Int(data.cast_ref_i64().to_vec()),
+            EncodingType::I64 => {
+                let ints = data.cast_ref_i64();
+                if ints.contains(&I64_NULL) {
+                    // In-band NULLs (e.g. MAX over an all-NULL group): describe the same cells as the row view
+                    BasicTypeColumn::Mixed((0..data.len()).map(|i| data.get_raw(i)).collect())
+                } else {
+                    BasicTypeColumn::Int(ints.to_vec())
+                }
+            }
             EncodingType::U8 | EncodingType::Bitvec => {
                 BasicTypeColumn::Int(data.cast_ref_u8().iter().map(|&i| i as i64).collect())
             }
@@ -477,7 +485,12 @@ impl BasicTypeColumn {
                 BasicTypeColumn::Int(data.cast_ref_usize().iter().map(|&i| i as i64).collect())
             }
             EncodingType::F64 => {
-                BasicTypeColumn::Float(data.cast_ref_f64().iter().map(|&f| f.0).collect())
+                let floats = data.cast_ref_f64();
+                if floats.iter().any(|f| f.to_bits() == F64_NULL.to_bits()) {
+                    BasicTypeColumn::Mixed((0..data.len()).map(|i| data.get_raw(i)).collect())
+                } else {
+                    BasicTypeColumn::Float(floats.iter().map(|&f| f.0).collect())
+                }
             }
             EncodingType::Null => BasicTypeColumn::Null(data.len()),
 
